@@ -282,6 +282,7 @@ func (d *DHCPv6DUID) DecodeFromBytes(data []byte) error {
 		return fmt.Errorf("Not enough bytes to decode: %d", len(data))
 	}
 
+	*d = DHCPv6DUID{} // a reused DUID must not keep the fields of another type
 	d.Type = DHCPv6DUIDType(binary.BigEndian.Uint16(data[:2]))
 	if d.Type == DHCPv6DUIDTypeLLT || d.Type == DHCPv6DUIDTypeLL {
 		if len(data) < 4 {
